@@ -108,11 +108,11 @@ Qed.
 
 Definition body_events (b : bytes) : list event := match b with [] => [] | _ => [EBody b] end.
 
-Lemma run_end_cl p b rest acc n :
+Lemma run_end_cl cl p b rest acc n :
   hdr_state p -> h_te p = [] -> h_cl p = [dec n] -> trailer p = [] ->
-  chunked p = false -> is_client p = false -> proto p = [] ->
+  chunked p = false -> is_client p = cl -> proto p = [] ->
   N.of_nat (length b) = n -> n < LIM ->
-  exists p', boundary p' /\
+  exists p', boundaryc cl p' /\
     run_bytes p (CR :: LF :: b ++ rest) acc =
     run_bytes p' rest (acc ++ [EContentLength (Z.of_N n)] ++ body_events b ++ [EComplete]).
 Proof.
@@ -132,7 +132,7 @@ Proof.
     { unfold stepb, q. cbn. rewrite H5. reflexivity. }
     rewrite (run_step _ _ _ _ _ _ S2), <- app_assoc. cbn [app].
     eexists; split; [|reflexivity].
-    unfold boundary, handle_message, q, after; cbn. rewrite H6. repeat split; auto.
+    unfold boundaryc, handle_message, q, after; cbn. rewrite H6. destruct cl; repeat split; auto.
   - assert (S2 : stepb q LF = Go_on (set_st SBodyContentLength (after (set_hexists false q))) []).
     { unfold stepb, q. cbn [st after set_tok set_st N.eqb LF Pos.eqb chunked set_clen clen set_hexists]. rewrite H5.
       destruct (Z.ltb_spec 0 (Z.of_N n)) as [_|E]; [reflexivity|]. rewrite <- Hlen, nat_N_Z in E. cbn [length] in E. lia. }
@@ -140,6 +140,6 @@ Proof.
     rewrite run_body; [| reflexivity | discriminate |
       unfold q; cbn [tok set_st after set_tok clen set_hexists set_clen Nat.add]; rewrite <- Hlen, nat_N_Z; reflexivity].
     eexists; split; [|cbn [tok set_st after set_tok app body_events]; rewrite <- app_assoc; reflexivity].
-    unfold boundary, handle_message, q, after; cbn. rewrite H6. repeat split; auto.
+    unfold boundaryc, handle_message, q, after; cbn. rewrite H6. destruct cl; repeat split; auto.
 Qed.
 
